@@ -45,19 +45,20 @@ func init() {
 		Rule: "write-fault-read: real encoders store an encoding of a generated value (WKB/EWKB in both byte orders, hex, \\x-hex, SRID-prefixed; WKT; GeoJSON geometry/feature/collection as JSON and BSON; " +
 			"plain and gzipped tiles); engine 'enum' applies EVERY single fault of one drawn kind to that blob (every truncation point; every single-bit flip for blobs <= 256 B; every boundary word at every offset in both byte orders; " +
 			"every byte_set value at every offset) and reads each damaged blob back through every decoder of its family; engine 'stack' applies 1-3 stacked sampled faults of all kinds (plus range zero/dup/drop, splices from another blob, " +
-			"garbage sectors, WKT token faults, misdirected reads, stream faults on top); engine 'small' samples the small finite spaces the property names. " +
+			"garbage sectors, WKT token faults, misdirected reads, stream faults on top); engine 'hostile' feeds well-framed but semantically hostile inputs (tiles built from the wire structs with nonsense command streams / tag indices / value messages, JSON and BSON documents with one node replaced, removed or renamed, deep nesting, gzip bombs and truncated gzip); engine 'small' samples the small finite spaces the property names. " +
 			"A case is one run (value x encoding x fault kind); distinct = distinct event-log digest; non-trivial = at least one storage fault was applied and decoded.",
 		StateDef: "distinct (family, encoding, fault kind, value shape) tuples; plus measured coverage of the small spaces (see small_spaces)",
 		Engines: []props.Engine{
-			{Name: "enum", Variant: "plain", Run: RunEnum, QuickRuns: 12000, Share: 0.5, MinThorough: 60000, RunTimeout: 30 * time.Second},
-			{Name: "stack", Variant: "plain", Run: RunStack, QuickRuns: 40000, Share: 0.3, MinThorough: 200000, RunTimeout: 30 * time.Second},
-			{Name: "small", Variant: "plain", Run: RunSmall, QuickRuns: 60000, Share: 0.2, MinThorough: 400000, RunTimeout: 30 * time.Second},
+			{Name: "enum", Variant: "plain", Run: RunEnum, QuickRuns: 12000, Share: 0.4, MinThorough: 60000, RunTimeout: 30 * time.Second},
+			{Name: "stack", Variant: "plain", Run: RunStack, QuickRuns: 40000, Share: 0.25, MinThorough: 200000, RunTimeout: 30 * time.Second},
+			{Name: "hostile", Variant: "plain", Run: RunHostile, QuickRuns: 16000, Share: 0.2, MinThorough: 200000, RunTimeout: 30 * time.Second},
+			{Name: "small", Variant: "plain", Run: RunSmall, QuickRuns: 60000, Share: 0.15, MinThorough: 400000, RunTimeout: 30 * time.Second},
 		},
 		Real: []string{"encoding/wkb", "encoding/ewkb", "encoding/internal/wkbcommon", "encoding/wkt", "geojson (JSON and BSON)", "encoding/mvt", "encoding/json", "go.mongodb.org/mongo-driver/bson", "compress/gzip", "paulmach/protoscan"},
 		Stub: []string{"storage (simio fault catalogue applied to stored blobs)", "faulty io.Reader under the stream decoders"},
 		Assumptions: []string{
 			"which error a decoder returns is never checked; a decoder may accept damaged bytes as some other valid value",
-			"allocation is measured with runtime/metrics /gc/heap/allocs:bytes (exact for large objects, lagging by at most one span per size class for small ones); bound 512*len + 8 MiB (gzip: 1100*len + 8 MiB)",
+			"allocation is measured with runtime/metrics /gc/heap/allocs:bytes (exact for large objects, lagging by at most one span per size class for small ones); bound 512*len + 8 MiB (gzip path: 8192*len + 8 MiB - the format expands up to 1032:1 and ReadAll's amortised growth allocates a multiple of the result)",
 			"hangs are caught by the worker's wall-clock watchdog (30 s for runs that take well under a second) and attributed through the journal and the watchdog's goroutine dump",
 		},
 		Spaces: []props.Space{{}, {Name: "tile blobs of 0-2 bytes", Total: 65793}, {Name: "WKB header tuples (order byte x type word x count x srid flag x truncation)", Total: wkbHeaderTotal()}, {Name: "WKT sentences of <= 5 tokens over a 16-token alphabet", Total: 1118481},
@@ -105,7 +106,7 @@ func (c *ctx) call(api string, n int, f func()) {
 	}
 	bound := uint64(512*n + 8<<20)
 	if c.gz {
-		bound = uint64(1100*n + 8<<20)
+		bound = uint64(8192*n + 8<<20) // gzip expands up to 1032:1 and ioutil.ReadAll's amortised growth allocates a multiple of that
 	}
 	if a1-a0 > bound {
 		c.t.Probe("memory_screen_tripped")
